@@ -277,7 +277,14 @@ where
         D: Deserializer<'de>,
     {
         let mut buffer = Self::ZERO.to_le_bytes();
-        serdect::array::deserialize_hex_or_bin(buffer.as_mut(), deserializer)?;
+        let expected = buffer.as_ref().len();
+        let decoded = serdect::array::deserialize_hex_or_bin(buffer.as_mut(), deserializer)?.len();
+        if decoded != expected {
+            return Err(serdect::serde::de::Error::invalid_length(
+                decoded,
+                &"an encoding of the integer's full size",
+            ));
+        }
         Ok(Self::from_le_bytes(buffer))
     }
 }
